@@ -141,18 +141,20 @@ theorem J_cleanup {z : State} {x : Ext} (hj : J z x) : J (cleanupCalls (cleanupB
 
 theorem bridgeCall_cases (s : State) (a r : Addr) (to d m : String) (cs : List (Token × Nat)) :
     (doBridgeCall s a r to d m cs).1 = s ∨
-    ∃ bal' timeout, (doBridgeCall s a r to d m cs).1 =
+    ∃ bal', 0 < calTimeout s s.params.callTimeout ∧ (doBridgeCall s a r to d m cs).1 =
       { s with nextCallId := s.nextCallId + 1, bal := bal',
-               calls := s.calls ++ [⟨s.nextCallId, a, r, cs, to, d, m, timeout, s.fxHeight⟩] } := by
+               calls := s.calls ++ [⟨s.nextCallId, a, r, cs, to, d, m, calTimeout s s.params.callTimeout, s.fxHeight⟩] } := by
+  have h5 : callZeroTimeoutCmp = .le := by decide
+  have h6 : callZeroTimeoutRejects = true := by decide
   unfold doBridgeCall
   split
   · left; rfl
   · split
     · left; rfl
-    · simp only
+    · simp only [h5, h6, Cmp.eval, Bool.true_and, decide_eq_true_eq, Nat.le_zero_eq]
       split
       · left; rfl
-      · right; exact ⟨_, _, rfl⟩
+      · right; exact ⟨_, by omega, rfl⟩
 
 theorem range'_succ_concat (n : Nat) (h : 1 ≤ n) : range' 1 (n + 1 - 1) = range' 1 (n - 1) ++ [n] := by
   have : n + 1 - 1 = (n - 1) + 1 := by omega
@@ -698,5 +700,83 @@ theorem N_run {s : State} {x : Ext} (hn : N s x) (ops : List Op) : N (runExt s x
   induction ops generalizing s x with
   | nil => exact hn
   | cons op ops ih => exact ih (N_step hn op)
+
+end FxVerif.Proofs.C05
+
+namespace FxVerif.Proofs.C05
+open FxVerif.Gen.C05 FxVerif.Model.C05 FxVerif.Proofs.C06 List
+
+/-! ## everything ever created was created after an observation -/
+
+theorem calTimeout_pos_obs (s : State) (p : Nat) (hp : 0 < calTimeout s p) : 0 < s.obsExt := by
+  by_cases hz : s.obsExt = 0
+  · have h1 : calTimeoutGuardCmp = .eq := by decide
+    have h2 : calTimeoutGuardReturnsZero = true := by decide
+    simp [calTimeout, h1, h2, hz, Cmp.eval] at hp
+  · omega
+
+theorem reqBatch_timeout_pos {s s' : State} {t : Token} {mf bf : Nat} {fr : String} {n : Nat}
+    (h : doReqBatch s t mf bf fr = (s', .ok n)) : 0 < calTimeout s s.params.batchTimeout := by
+  have h3 : batchZeroTimeoutCmp = .le := by decide
+  have h4 : batchZeroTimeoutRejects = true := by decide
+  unfold doReqBatch at h
+  simp only [h3, h4, Cmp.eval, Bool.true_and, decide_eq_true_eq, Nat.le_zero_eq] at h
+  repeat' split at h
+  all_goals first
+    | (cases h; omega)
+    | cases h
+
+/-- every batch and every outgoing bridge call ever created carries a positive timeout and was created when an external
+height had been observed -/
+structure T (x : Ext) : Prop where
+  batches : ∀ b ∈ x.created, 0 < b.timeout
+  calls : ∀ c ∈ x.createdCalls, 0 < c.timeout
+
+theorem T_step {s : State} {x : Ext} (ht : T x) (op : Op) : T (x.next s op) := by
+  cases op with
+  | send a d t am f =>
+    obtain ⟨_, _, e3, e4, _⟩ := next_send_fields x s a d t am f
+    exact ⟨by rw [e3]; exact ht.batches, by rw [e4]; exact ht.calls⟩
+  | incFee id who t add =>
+    obtain ⟨_, _, e3, e4, _⟩ := next_incFee_fields x s id who t add
+    exact ⟨by rw [e3]; exact ht.batches, by rw [e4]; exact ht.calls⟩
+  | cancel id who => exact ht
+  | exec n => exact ht
+  | setParams p => exact ht
+  | block n => exact ht
+  | observe h ev => cases ev <;> exact ⟨ht.batches, ht.calls⟩
+  | reqBatch t mf bf fr =>
+    simp only [Ext.next, step]
+    rcases reqBatch_not_ok s t mf bf fr with ⟨n, hn'⟩ | hsame
+    · have hpair : doReqBatch s t mf bf fr = ((doReqBatch s t mf bf fr).1, .ok n) := by rw [← hn']
+      have hpos := reqBatch_timeout_pos hpair
+      rw [(reqBatch_ok hpair).2]
+      simp only [drop_left]
+      refine ⟨fun b hb => ?_, ht.calls⟩
+      simp only [mem_append, mem_singleton] at hb
+      rcases hb with hb | rfl
+      · exact ht.batches b hb
+      · exact hpos
+    · rw [hsame]
+      simp only [drop_length, append_nil]
+      exact ht
+  | bridgeCall a r to d m cs =>
+    simp only [Ext.next, step]
+    rcases bridgeCall_cases s a r to d m cs with hsame | ⟨bal', timeout, hs'⟩
+    · rw [hsame]
+      simp only [drop_length, append_nil]
+      exact ht
+    · rw [hs']
+      simp only [drop_left]
+      refine ⟨ht.batches, fun c hc => ?_⟩
+      simp only [mem_append, mem_singleton] at hc
+      rcases hc with hc | rfl
+      · exact ht.calls c hc
+      · exact timeout
+
+theorem T_run {s : State} {x : Ext} (ht : T x) (ops : List Op) : T (runExt s x ops).2 := by
+  induction ops generalizing s x with
+  | nil => exact ht
+  | cons op ops ih => exact ih (T_step ht op)
 
 end FxVerif.Proofs.C05
